@@ -1,1 +1,122 @@
-From Coq Require Import ZArith List.
+(* Property C14 — descriptors; declared lengths always match emitted bytes (theorems only; proofs in Proofs/DescProofs.v).
+   Model: Model/Desc.v (hand-written from descriptor.go, run against the implementation on every check);
+   calcDescriptor<X>Length: Gen/Preds.v (re-translated from descriptor.go on every run);
+   Spec: Spec/DescSpec.v (body sizes from the standards as plain integers, the TLV split as a relation on bytes). *)
+From Coq Require Import ZArith List Lia.
+Require Import Base.Bits Base.Iter Base.Wr Gen.Consts Gen.Types Gen.Preds Model.Desc Spec.DescSpec Proofs.DescProofs.
+Import ListNotations.
+Open Scope Z_scope.
+
+(* (a) writeDescriptorsWithLength: the 12-bit loop length is the number of bytes that follow it and every
+   length byte is the number of body bytes behind it — for ARBITRARY Descriptor_Length fields (the theorem does
+   not mention them).  Guard: no body exceeds 255 bytes (no uint8 wrap in calcDescriptorLength) and the loop
+   fits its 12-bit length.  items_bytes_ok: byte strings hold bytes (the invariant of Go's []byte).
+   loop_bytes ds bodies = tag_1, length_1, body_1, tag_2, ... with length_k = calc_descriptor_length d_k. *)
+Theorem C14_len : forall ds out,
+  enc_descriptors_with_length ds = Ok out -> items_bytes_ok out ->
+  Forall (fun d => desc_size d < 256) ds -> loop_size ds < 4096 ->
+  let bytes := bytes_of_items out in
+  exists hdr bodies,
+    bytes = hdr ++ loop_bytes ds bodies /\ zlen hdr = 2 /\
+    Forall2 (fun d b => zlen b = calc_descriptor_length d /\ zlen b = desc_size d) ds bodies /\
+    bitsf bytes 4 12 = zlen bytes - 2 /\
+    zlen bytes = 2 + loop_size ds.
+Proof. exact descriptors_with_length_exact. Qed.
+Print Assumptions C14_len.
+
+(* the guard is satisfiable, with struct Length fields that are wrong (99), left 0, and a list-valued body *)
+Definition ex_ds : list Descriptor :=
+  [ set_StreamIdentifier (desc_hdr 82 99) {| DescriptorStreamIdentifier_ComponentTag := 7 |};
+    set_Unknown (desc_hdr 3 0) {| DescriptorUnknown_Content := [1; 2; 3]; DescriptorUnknown_Tag := 3 |};
+    set_Content (desc_hdr 84 200) {| DescriptorContent_Items :=
+      [ {| DescriptorContentItem_ContentNibbleLevel1 := 1; DescriptorContentItem_ContentNibbleLevel2 := 2; DescriptorContentItem_UserByte := 3 |};
+        {| DescriptorContentItem_ContentNibbleLevel1 := 15; DescriptorContentItem_ContentNibbleLevel2 := 0; DescriptorContentItem_UserByte := 255 |} ] |} ].
+Example C14_len_example : exists out,
+  enc_descriptors_with_length ex_ds = Ok out /\ items_bytes_ok out /\
+  Forall (fun d => desc_size d < 256) ex_ds /\ loop_size ex_ds < 4096 /\
+  bytes_of_items out = [240; 14; 82; 1; 7; 3; 3; 1; 2; 3; 84; 4; 18; 3; 240; 255].
+Proof.
+  eexists. split; [vm_compute; reflexivity|]. split; [repeat constructor; cbv; intuition discriminate|].
+  split; [repeat constructor|]. split; reflexivity.
+Qed.
+
+(* what happens in general, including uint8 wrap: the length byte is the body size modulo 256; the body is
+   written in full unless that residue is 0, in which case no body is written at all *)
+Theorem C14_len_any : forall d its, enc_descriptor d = Ok its -> items_bytes_ok its ->
+  exists body,
+    bytes_of_items its = [Descriptor_Tag d mod 256; calc_descriptor_length d mod 256] ++ body /\
+    calc_descriptor_length d = desc_size d mod 256 /\
+    zlen body = (if desc_size d mod 256 =? 0 then 0 else desc_size d).
+Proof.
+  intros d its H Hok. destruct (enc_descriptor_bytes d its H Hok) as (body & E & Hl & _).
+  destruct (emitted_wrap d) as [Ec Ee]. exists body. rewrite <- Ee. auto.
+Qed.
+Print Assumptions C14_len_any.
+
+(* a 256-byte body announces 0 and writes nothing; a 300-byte body announces 44 and writes 300 bytes *)
+Example C14_wrap_256 :
+  res_map bytes_of_items (enc_descriptor (set_Unknown (desc_hdr 3 0) {| DescriptorUnknown_Content := repeat 170 256; DescriptorUnknown_Tag := 3 |}))
+  = Ok [3; 0].
+Proof. vm_compute. reflexivity. Qed.
+Example C14_wrap_300 :
+  res_map (fun its => (firstn 2 (bytes_of_items its), zlen (bytes_of_items its)))
+    (enc_descriptor (set_Unknown (desc_hdr 3 0) {| DescriptorUnknown_Content := repeat 170 300; DescriptorUnknown_Tag := 3 |}))
+  = Ok ([3; 44], 302).
+Proof. vm_compute. reflexivity. Qed.
+
+(* (b) parseDescriptors never shifts what follows.  First with the body parser abstracted: ANY function that
+   returns Ok/Err/Panic and leaves the byte slice of the iterator alone (body_pres).  On success the result is
+   tlv_parse: the loop is split at tag/length boundaries only — entry k starts where entry k-1 started plus 2
+   plus its declared length — and descriptor k is what the body parser returns when it is run on the untouched
+   buffer at entry k's own body with entry k's own declared end, independently of what the earlier bodies
+   consumed; the iterator is left at the end of the last entry. *)
+Theorem C14_tlv_any_body : forall body bs pos ds i', body_pres body ->
+  parse_descriptors_with body (mk_iter bs pos) = Ok (ds, i') ->
+  0 <= pos /\ pos + 2 <= zlen bs /\ ibs i' = bs /\
+  tlv_parse desc_hdr body bs (pos + 2 + loop_length_at bs pos) (pos + 2) ds (ioff i').
+Proof. exact parse_descriptors_tlv. Qed.
+Print Assumptions C14_tlv_any_body.
+
+(* instantiated with the 23 typed parsers, unknown and user-defined tags: the tags and lengths returned are
+   exactly the TLV entries of the loop (tlv_chain is a function of the bytes alone: tlv_chain_det), and the
+   iterator ends at the first entry boundary at or after the declared end of the loop *)
+Theorem C14_tlv : forall bs pos ds i', bytes_ok bs ->
+  parse_descriptors (mk_iter bs pos) = Ok (ds, i') ->
+  let endp := pos + 2 + loop_length_at bs pos in
+  ibs i' = bs /\
+  tlv_parse desc_hdr parse_descriptor_body bs endp (pos + 2) ds (ioff i') /\
+  exists es, tlv_chain bs endp (pos + 2) es (ioff i') /\
+             map (fun d => (Descriptor_Tag d, Descriptor_Length d)) ds = map (fun e => (snd (fst e), snd e)) es /\
+             endp <= ioff i'.
+Proof. exact parse_descriptors_framing. Qed.
+Print Assumptions C14_tlv.
+
+Theorem C14_tlv_entries_unique : forall bs endp pos es fin, tlv_chain bs endp pos es fin ->
+  forall es' fin', tlv_chain bs endp pos es' fin' -> es' = es /\ fin' = fin.
+Proof. exact tlv_chain_det. Qed.
+Print Assumptions C14_tlv_entries_unique.
+
+(* exactly 2 + loop length bytes are consumed iff the last entry ends at the declared end of the loop *)
+Theorem C14_tlv_consumed : forall bs endp pos es fin, tlv_chain bs endp pos es fin ->
+  (es = [] /\ fin = pos) \/ (es <> [] /\ exists p t l, last es (0, 0, 0) = (p, t, l) /\ fin = p + 2 + l).
+Proof. exact tlv_chain_exact. Qed.
+Print Assumptions C14_tlv_consumed.
+
+(* an AVC video descriptor (4 body bytes) declared with length 2: its parser reads into the next entry, yet
+   the stream identifier that follows is decoded from its own boundary *)
+Example C14_tlv_example :
+  match parse_descriptors (new_iter [240; 7; 40; 2; 1; 2; 82; 1; 9]) with
+  | Ok ([a; s], i) => (Descriptor_Tag a, Descriptor_Length a, Descriptor_StreamIdentifier s, ioff i)
+                      = (40, 2, Some {| DescriptorStreamIdentifier_ComponentTag := 9 |}, 9)
+  | _ => False
+  end.
+Proof. vm_compute. reflexivity. Qed.
+
+(* an entry that overruns the declared loop end (loop length 2, entry of 2 + 5 bytes): the parser follows the
+   entry's own length, the iterator ends at 9, beyond 2 + 2 *)
+Example C14_tlv_overrun_example :
+  match parse_descriptors (new_iter [240; 2; 82; 5; 1; 2; 3; 4; 5; 77]) with
+  | Ok ([s], i) => (Descriptor_Length s, ioff i) = (5, 9)
+  | _ => False
+  end.
+Proof. vm_compute. reflexivity. Qed.
